@@ -20,6 +20,10 @@ pub struct Stats {
     /// digest of the case in flight (event logs + results); folded into the run digest
     #[serde(skip)]
     pub case_digest: u64,
+    /// when a "case" is a whole scenario that is re-executed once per fault, the number of
+    /// fault-injected executions is what evidence reports as evaluations
+    #[serde(default)]
+    pub evaluations_override: u64,
 }
 
 impl Stats {
@@ -86,6 +90,7 @@ impl Stats {
         }
         self.sim_steps += o.sim_steps;
         self.sim_bytes += o.sim_bytes;
+        self.evaluations_override += o.evaluations_override;
     }
     pub fn absorb_sim(&mut self, sim: &crate::simdisk::Sim) {
         self.sim_steps += sim.total_ops;
